@@ -108,7 +108,7 @@ pub fn vx_msg() -> String { String::new() }
 '''
 
 
-def build(name='u_off', selector_variants=('TextSelector', 'AnnotationSelector', 'ResourceSelector')):
+def build(name='u_off', selector_variants=('TextSelector', 'AnnotationSelector', 'ResourceSelector'), extra_errors=()):
     u = Unit(name, serves=['C04', 'C19', 'C14'])
     common.target64(u)
     common.int_specs(u)
@@ -123,7 +123,7 @@ impl vstd::std_specs::cmp::PartialEqSpecImpl for Cursor {
 ''', 'derived PartialEq on Cursor is structural equality (R-derive-eq)')
     u.item('src/selector.rs', 'struct', 'Offset', keep_derives=['Clone', 'Copy', 'PartialEq'])
     u.item('src/selector.rs', 'enum', 'OffsetMode', keep_derives=['Clone', 'Copy', 'PartialEq'])
-    u.item('src/error.rs', 'enum', 'StamError', keep_variants=['CursorOutOfBounds', 'InvalidOffset', 'InvalidCursor'], keep_derives=['Debug'])
+    u.item('src/error.rs', 'enum', 'StamError', keep_variants=['CursorOutOfBounds', 'InvalidOffset', 'InvalidCursor'] + list(extra_errors), keep_derives=['Debug'])
     common.handle_trait(u, P)
     common.handle_impl(u, 'TextSelectionHandle', P)
     u.item('src/textselection.rs', 'struct', 'TextSelection', keep_derives=['Clone', 'Copy'])
